@@ -4,6 +4,7 @@ use crate::core::Scenario;
 
 pub mod c08;
 pub mod c09;
+pub mod c10;
 pub mod signnode;
 
 pub fn all() -> Vec<Box<dyn Scenario>> {
@@ -14,6 +15,8 @@ pub fn all() -> Vec<Box<dyn Scenario>> {
         Box::new(c08::C08),
         Box::new(c09::C09Real),
         Box::new(c09::C09Stub),
+        Box::new(c10::Adversary { judge: c10::Judge::Model }),
+        Box::new(c10::Adversary { judge: c10::Judge::Invariants }),
     ]
 }
 
@@ -47,6 +50,22 @@ pub fn expected_probes(name: &str) -> Vec<&'static str> {
             "abandoned_transfer_then_reset",
         ],
         "c12-flood" => vec!["counter_taken_past_65535"],
+        "c10-adversarial-bus" => vec!["bus_error", "conversation_ge_10_turns", "polled_3_or_more_times", "foreign_reply_at:Hello1", "foreign_reply_at:ResultQuery", "foreign_reply_at:Poll", "foreign_reply_at:RequestAck", "foreign_reply_at:CinHello", "foreign_reply_at:FinalQuery"],
+        "c11-adversarial-bus" => vec![
+            "bus_error",
+            "conversation_ge_10_turns",
+            "retry_seen",
+            "third_attempt_failed",
+            "error_mid_conversation",
+            "disallowed_reply_with_foreign_address",
+            "configure_if_needed_stopped_early",
+            "foreign_reply_at:Hello1",
+            "foreign_reply_at:ResultQuery",
+            "foreign_reply_at:Poll",
+            "foreign_reply_at:RequestAck",
+            "foreign_reply_at:CinHello",
+            "foreign_reply_at:FinalQuery",
+        ],
         "c08-recover-and-send" => vec![
             "prior_state:Unconfigured",
             "prior_state:ConfigInProgress",
